@@ -11,17 +11,54 @@ PARALLEL = True
 BATCH = 800
 BUDGET_S = {'quick': 80, 'thorough': 1200}
 RULE = ('recordings of length 1..L (incl. shorter than the window) x 1..4 channels x int16/float32/float64 '
-        'x in-memory / flat 1..3 files / cbin x every chunk size; sorted spike vectors of '
-        'int32/int64/uint32/uint64 incl. spikes at 0, at the last sample, within n//2 of both ends and on '
-        'every chunk/file boundary; windows 1..9 (odd and even); channel rows with and without -1, as '
-        'arrays and as Python lists; unit factors 1, 2, 1.0, 0.5, 2.5; store queries in any order; '
-        'TemplateModel.get_waveforms on generated datasets. Also: file names not in sorted order, exports over an earlier export / foreign bytes, window length as a NumPy integer, non-finite samples on a channel reached only through -1, the subset store exported again (same model / a model opened on the earlier store). '
+        'x in-memory / flat 1..3 files / cbin x every chunk size, also read through a column-selected derived reader '
+        '(what TemplateModel.traces is); spike vectors of int32/int64/uint32/uint64 incl. spikes at 0, at the last '
+        'sample, within n//2 of both ends and on every chunk/file boundary; windows 1..9 (odd and even) given as a '
+        'Python int and as a NumPy integer of every signed / unsigned width; channel rows with and without -1, as '
+        'Python lists, tuples and arrays of every integer dtype (unsigned: rows without -1); unit factors 1, 2, 1.0, '
+        '0.5, 2.5; store queries in any order, spike ids and query channels of every integer dtype / container; '
+        'TemplateModel.get_waveforms (raw route and subset-store route, queries in any order with repeats) on '
+        'generated datasets whose channel map selects and permutes a subset of the file\'s channels. Also: file '
+        'names not in sorted order, exports over an earlier export / foreign bytes, non-finite samples on a channel '
+        'reached only through -1, the subset store exported again (same model / a model opened on the earlier store). '
         'non-trivial = at least one spike whose window '
         'crosses an edge or a chunk boundary, or >= 2 spikes')
 ASSUMPTIONS = ['.npy byte layout and np.load are transport', 'factor multiplication is exact on the generated values',
                'subset store (op model_store): the spike selection (random, C17) and the per-template channel order '
                '(get_template().channel_ids, C05) are observed on the real model and given to the Lean model of '
-               'save_spikes_subset_waveforms; stores holding fewer than 2 spikes are skipped (see report)']
+               'save_spikes_subset_waveforms; a store that is not loaded after the export is a violation (subset_loads), '
+               'a loaded store without any spike is not judged']
+INT_KINDS = ['int8', 'int16', 'int32', 'int64', 'uint8', 'uint16', 'uint32', 'uint64']
+
+
+def _win(case):
+    """the window length in the form the caller gives it: a Python int or a NumPy integer of the named type
+    ('np': int64, the form of the earlier corpus cases)"""
+    k = case.get('nkind', 'int')
+    if k == 'int':
+        return int(case['n'])
+    return np.dtype('int64' if k == 'np' else k).type(case['n'])
+
+
+def _ints(vals, kind):
+    """integer ids (channels, spike ids) in the container / integer type named by `kind`: 'list', 'tuple', 'array'
+    (int64) or a NumPy integer dtype. An unsigned type cannot hold -1: the signed type of the same width is used
+    then (generators only ask for unsigned types on rows without -1; the harness itself must never raise)."""
+    if kind in (None, 'list'):
+        return [list(v) if isinstance(v, (list, tuple)) else int(v) for v in vals]
+    if kind == 'tuple':
+        return tuple(tuple(v) if isinstance(v, (list, tuple)) else int(v) for v in vals)
+    if kind == 'array':
+        kind = 'int64'
+    a = np.array(vals, dtype=np.int64)
+    if kind.startswith('u') and a.size and a.min() < 0:
+        kind = kind[1:]
+    return a.astype(kind)
+
+
+def _same_ids(arg, vals):
+    """the caller-owned argument still holds the values it was built from"""
+    return np.array_equal(np.asarray(arg, dtype=np.int64).reshape(-1), np.asarray(vals, dtype=np.int64).reshape(-1))
 
 
 def _A(dur, nch, dtype, bias=0):
@@ -65,6 +102,15 @@ def _reader(case, d, A):
     return get_ephys_reader(rd), rd
 
 
+def _query_ids(case, store_ids):
+    """the spikes a model_store case asks for: its `spike_ids`, or — `pick='stored'`, so that the store route is
+    taken — the spikes at those positions (modulo its size) of the store the real model has just written (the
+    selection is the seeded C17 selector's; it is observed, like the store ids themselves)"""
+    if case.get('pick') == 'stored' and store_ids:
+        return [store_ids[i % len(store_ids)] for i in case['spike_ids']]
+    return list(case['spike_ids'])
+
+
 def impl(case):
     from phylib.io import traces as T
     from phylib.utils import Bunch
@@ -87,11 +133,15 @@ def impl(case):
                 m.save_spikes_subset_waveforms(max_n_spikes_per_template=case['nst'], max_n_channels=case['nc'],
                                                sample2unit=case.get('factor', 1.))
                 sw = m.spike_waveforms
-                if sw is None or np.ndim(sw.spike_ids) == 0 or len(sw.spike_ids) < 1:
-                    return dict(skip=True)
-                out = m.get_waveforms(np.array(case['spike_ids'], dtype=np.int64), list(case['ch']))
+                if sw is None:
+                    return dict(skip=True, why='not loaded')
+                if np.ndim(sw.spike_ids) == 0 or len(sw.spike_ids) < 1:
+                    return dict(skip=True, why='empty')
+                ids = _query_ids(case, [int(x) for x in sw.spike_ids])
+                out = m.get_waveforms(_ints(ids, case.get('qkind', 'array')),
+                                      _ints(case['ch'], case.get('chkind', 'list')))
                 used = sorted(int(t) for t in np.unique(m.spike_templates))
-                res = dict(vals=np.asarray(out, dtype=np.float64).tolist(), shape=list(out.shape),
+                res = dict(vals=np.asarray(out, dtype=np.float64).tolist(), shape=list(out.shape), query=ids,
                            store_ids=[int(x) for x in sw.spike_ids],
                            store_channels=np.asarray(sw.spike_channels).astype(np.int64).tolist(),
                            orders={str(t): [int(c) for c in m.get_template(t).channel_ids] for t in used},
@@ -104,8 +154,8 @@ def impl(case):
         with C.scratch_dir() as d:
             m = D.load(D.write_dataset(d, case['spec']))
             try:
-                out = m.get_waveforms(np.array(case['spike_ids'], dtype=np.int64),
-                                      np.array(case['ch']) if case.get('chkind') == 'array' else list(case['ch']))
+                out = m.get_waveforms(_ints(case['spike_ids'], case.get('qkind', 'array')),
+                                      _ints(case['ch'], case.get('chkind', 'list')))
                 res = dict(vals=np.asarray(out).astype(np.int64).tolist(), shape=list(out.shape))
             finally:
                 m.close()
@@ -125,13 +175,17 @@ def impl(case):
             traces = A
         else:
             traces, rd = _reader(case, d, A)
+        if case.get('cols') is not None:
+            # a column-selected DERIVED reader (what TemplateModel.traces is: `reader[:, channel_map]`); the channel
+            # ids of the case then count within the selected columns
+            traces = traces[:, list(case['cols'])]
         try:
             if op == 'extract':
-                ch = np.array(case['ch'], dtype=np.int64) if case.get('chkind') == 'array' else list(case['ch'])
-                out = T.extract_waveforms(traces, spikes, ch, n_samples_waveforms=n)
+                ch = _ints(case['ch'], case.get('chkind', 'list'))
+                out = T.extract_waveforms(traces, spikes, ch, n_samples_waveforms=_win(case))
                 return dict(vals=np.asarray(out).astype(np.int64).tolist(), shape=list(out.shape),
                             dtype=str(out.dtype),
-                            args_changed=bool(list(ch) != list(case['ch']) or spikes.tolist() != list(case['spikes'])))
+                            args_changed=bool(not _same_ids(ch, case['ch']) or spikes.tolist() != list(case['spikes'])))
             chans = np.array(case['chans'], dtype=np.int64).reshape((len(spikes), case['nloc']))
             path = d / 'w.npy'
             prev = case.get('prev')
@@ -143,21 +197,25 @@ def impl(case):
                                    sample2unit=3., cache=False)
             elif prev == 'bytes':
                 path.write_bytes(b'not an array file at all ' * 40)
-            T.export_waveforms(path, traces, spikes, chans if case.get('chkind') == 'array' else chans.tolist(),
-                               n_samples_waveforms=(np.int64(n) if case.get('nkind') == 'np' else n),     # window length as a NumPy integer
+            chans_arg = _ints(case['chans'], case.get('chkind', 'list'))
+            if isinstance(chans_arg, np.ndarray):
+                chans_arg = chans_arg.reshape(chans.shape)
+            T.export_waveforms(path, traces, spikes, chans_arg, n_samples_waveforms=_win(case),
                                sample2unit=case['factor'], cache=bool(case.get('cache')))
             arr = np.load(path)
             res = dict(shape=list(arr.shape), dtype=str(arr.dtype), vals=arr.tolist(),
                        ivs=[[int(a), int(b)] for a, b in traces.iter_chunks()],
-                       args_changed=bool(chans.ravel().tolist() != np.array(case['chans']).ravel().tolist() or
+                       args_changed=bool(not _same_ids(chans_arg, case['chans']) or
                                          spikes.tolist() != list(case['spikes'])))
             if op == 'lookup':
                 st = Bunch(spike_ids=np.array(case['ids'], dtype=np.int64), spike_channels=chans.astype(np.int32),
                            waveforms=arr)
-                out = T.get_spike_waveforms(np.array(case['query'], dtype=np.int64), case['chq'],
-                                            spike_waveforms=st, n_samples_waveforms=n)
+                query = _ints(case['query'], case.get('qkind', 'array'))
+                chq = _ints(case['chq'], case.get('chqkind', 'list'))
+                out = T.get_spike_waveforms(query, chq, spike_waveforms=st, n_samples_waveforms=_win(case))
                 res = dict(vals=out.tolist(), shape=list(out.shape), ivs=res['ivs'], dtype=str(out.dtype),
-                           args_changed=res['args_changed'])
+                           args_changed=bool(res['args_changed'] or not _same_ids(query, case['query']) or
+                                             not _same_ids(chq, case['chq'])))
             return res
         finally:
             del traces
@@ -197,10 +255,12 @@ def model_query(case, impl_res):
         nt = ok['n_templates']
         # channels are renamed by the (injective) channel map: the Lean recording is the raw file
         orders = [[cm[c] for c in ok['orders'].get(str(t), [])] for t in range(nt)]
+        # values OBSERVED on the real code travel under `impl_*` keys: when the driver cannot read one of them as a value
+        # of the model's domain (a negative chunk bound, ...) the check reports the real output, not its own machinery
         return dict(p=PID, op='subset', dur=raw.shape[0], nch=raw.shape[1], n=len(spec['templates'][0]),
-                    spike_samples=spec['spike_samples'], spike_templates=spec['spike_templates'], orders=orders,
-                    sel=ok['store_ids'], max_n=case['nc'], closest=ok['closest'], query=case['spike_ids'],
-                    chq=[cm[c] for c in case['ch']], ivs=ok['ivs'], factor=_frac(case.get('factor', 1.)))
+                    spike_samples=spec['spike_samples'], spike_templates=spec['spike_templates'], impl_orders=orders,
+                    impl_sel=ok['store_ids'], max_n=case['nc'], impl_closest=ok['closest'], query=ok['query'],
+                    chq=[cm[c] for c in case['ch']], impl_ivs=ok['ivs'], factor=_frac(case.get('factor', 1.)))
     if op == 'model':
         spec = case['spec']
         raw = _spec_raw(case)
@@ -209,15 +269,22 @@ def model_query(case, impl_res):
                     spikes=[spec['spike_samples'][i] for i in case['spike_ids']],
                     ch=[cm[c] if c != -1 else -1 for c in case['ch']])
     q = dict(p=PID, op=op, dur=case['dur'], nch=case['nch'], n=case['n'])
+    # a derived reader `reader[:, cols]`: channel c of the case is channel cols[c] of the recording the model reads
+    cols = case.get('cols')
+    ren = (lambda c: c if c == -1 or cols is None else cols[c])
     if op == 'extract':
-        q.update(spikes=case['spikes'], ch=case['ch'])
+        q.update(spikes=case['spikes'], ch=[ren(c) for c in case['ch']])
         return q
-    ivs = impl_res['ok']['ivs'] if 'ok' in impl_res else [[0, case['dur']]]
-    q.update(nloc=case['nloc'], ivs=ivs, factor=_frac(case['factor']), bias=case.get('bias', 0))
+    q.update(nloc=case['nloc'], factor=_frac(case['factor']), bias=case.get('bias', 0))
+    if 'ok' in impl_res:
+        q.update(impl_ivs=impl_res['ok']['ivs'])      # the reader's chunk intervals, observed (C16 judges them)
+    chans = [[ren(c) for c in row] for row in case['chans']]
     if op == 'export':
-        q.update(spikes=case['spikes'], chans=case['chans'])
+        q.update(spikes=case['spikes'], chans=chans)
     else:
-        q.update(ids=case['ids'], samples=case['spikes'], chans=case['chans'], query=case['query'], chq=case['chq'])
+        q.update(ids=case['ids'], samples=case['spikes'], chans=chans, query=case['query'],
+                 chq=[cols[c] if cols is not None and c < len(cols) else (c if cols is None else case['nch'] + c)
+                      for c in case['chq']])
     return q
 
 
@@ -231,6 +298,8 @@ def oracle(case):
         n = len(spec['templates'][0])
         return [window(raw, spec['spike_samples'][i], n, case['ch']).tolist() for i in case['spike_ids']]
     ids = _A(case['dur'], case['nch'], 'int64')
+    if case.get('cols') is not None:
+        ids = ids[:, list(case['cols'])]
     return [window(ids, s, case['n'], case['ch']).tolist() for s in case['spikes']]
 
 
@@ -261,6 +330,15 @@ def judge(case, impl_res, ans):
         if ok['dtype'] != 'float64':
             return 'CORR: exported dtype %s' % ok['dtype']
     if np.array(ok['vals'], dtype=np.float64).tolist() != np.array(exp, dtype=np.float64).tolist():
+        got, want = np.array(ok['vals'], dtype=np.float64), np.array(exp, dtype=np.float64)
+        if op == 'lookup' and got.shape == want.shape:
+            # DESIGN §5 reading: the lookup is claimed on the query channels the store HOLDS for the spike; zeros on
+            # the others are what the model (and the code) gives, not what the statement demands
+            held = np.array([[c in case['chans'][case['ids'].index(q)] for c in case['chq']] for q in case['query']])
+            bad = np.array([[not np.array_equal(got[i, :, j], want[i, :, j]) for j in range(got.shape[2])]
+                            for i in range(got.shape[0])]).reshape(held.shape)
+            if not (bad & held).any():
+                return 'CORR: get_spike_waveforms differs from the Lean model on a channel the store does not hold for the spike'
         return 'SPEC: %s route differs from the zero-padded raw window%s' % (
             op, ' times the unit factor' if op in ('export', 'lookup') else '')
     if ok.get('args_changed'):
@@ -279,13 +357,20 @@ def _judge_store(case, impl_res, m):
             impl_res['raised'], impl_res['msg'], impl_res['where'])
     ok = impl_res['ok']
     if ok.get('skip'):
+        if ok.get('why') == 'not loaded':
+            # the three files were just written by save_spikes_subset_waveforms on a well-formed dataset and the
+            # model reloaded them itself (model.py:1424): `_load_spike_waveforms` dropped the store
+            return ('SPEC: the subset store written by save_spikes_subset_waveforms is not loaded afterwards '
+                    '(spike_waveforms is None; subset_loads)')
         return None
+    if m['model'] is None:
+        return 'MACHINERY: the Lean model of get_waveforms raises on a store written by saveSubset'
     sel = ok['store_ids']
     in_hyp = m['tile'] and all(a < b for a, b in zip(sel, sel[1:]))
     if in_hyp and not m['loads']:
         return 'MACHINERY: the Lean subset files do not load (contradicts subset_loads)'
     if in_hyp and m['model'] != m['spec']:
-        return 'MACHINERY: Lean model differs from its spec (contradicts subset_store_eq_raw / getWaveforms_unstored)'
+        return 'MACHINERY: Lean model differs from its spec (contradicts getWaveforms_after_save)'
     cm = case['spec']['channel_map']
     real_rows = [[cm[c] if c != -1 else -1 for c in row] for row in ok['store_channels']]
     if real_rows != m['store_channels']:
@@ -298,7 +383,7 @@ def _judge_store(case, impl_res, m):
     stored = {sid: row for sid, row in zip(sel, ok['store_channels'])}
     if m['all_stored']:
         # store route: claimed on the channels the store holds for that spike
-        for i, q in enumerate(case['spike_ids']):
+        for i, q in enumerate(ok['query']):
             for j, c in enumerate(case['ch']):
                 if c in stored[q] and not np.array_equal(got[i, :, j], spec[i, :, j]):
                     return 'SPEC: store lookup differs from the unit factor times the raw window (spike %d, channel %d)' % (q, c)
@@ -316,11 +401,26 @@ def nontrivial(case):
     return len(case['spikes']) >= 2 or any(s < case['n'] // 2 or s + case['n'] - case['n'] // 2 > case['dur'] for s in case['spikes'])
 
 
+def _nk(case):
+    k = case.get('nkind', 'int')
+    return 'int64' if k == 'np' else k
+
+
 def tally(rep, case, impl_res, ans):
     if case['op'] in ('export', 'lookup'):
         rep.count('export_cache:%s' % bool(case.get('cache')))
-        rep.count('window_length_given_as:%s' % ('numpy integer' if case.get('nkind') == 'np' else 'int'))
         rep.count('destination_before_the_export:%s' % {'export': 'an earlier export', 'bytes': 'foreign bytes'}.get(case.get('prev'), 'absent'))
+    if case['op'] in ('extract', 'export', 'lookup'):
+        rep.count('window_length_given_as:%s' % _nk(case))
+        rep.count('channels_given_as:%s' % case.get('chkind', 'list'))
+        if case.get('cols') is not None:
+            rep.count('read through a column-selected derived reader')
+    if case['op'] == 'lookup':
+        rep.count('query_channels_given_as:%s' % case.get('chqkind', 'list'))
+        rep.count('query_ids_given_as:%s' % case.get('qkind', 'array'))
+    if case['op'] in ('model', 'model_store'):
+        rep.count('get_waveforms_channels_given_as:%s' % case.get('chkind', 'list'))
+        rep.count('get_waveforms_ids_given_as:%s' % case.get('qkind', 'array'))
     rep.count('op:' + case['op'])
     if case['op'] == 'model_store':
         pr = case.get('prior')
@@ -329,9 +429,9 @@ def tally(rep, case, impl_res, ans):
     if case['op'] in ('model', 'model_store'):
         if case['op'] == 'model_store' and 'ok' in impl_res and not impl_res['ok'].get('skip'):
             st = set(impl_res['ok']['store_ids'])
-            rep.count('store_request:%s' % ('all_stored' if all(q in st for q in case['spike_ids']) else 'some_unstored'))
+            rep.count('store_request:%s' % ('all_stored' if all(q in st for q in impl_res['ok']['query']) else 'some_unstored'))
         return
-    rep.count('backend:' + case['backend'] + ('(file names not in sorted order)' if case.get('names') in ('rev', 'nat') and len(case.get('parts', [])) > 1 else ''))
+    rep.count('backend:' + case['backend'] + ('(file names not in sorted order)' if case['backend'] == 'flat' and case.get('names') in ('rev', 'nat') and len(case.get('parts', [])) > 1 else ''))
     if case.get('nanlast'):
         rep.count('non-finite samples on a channel reached only through -1')
     rep.count('sdtype:' + case.get('sdtype', 'int64'))
@@ -350,6 +450,10 @@ def tally(rep, case, impl_res, ans):
 
 def classify(case, impl_res, ans, why):
     d = dict(op=case['op'], kind=why.split(':')[0], raised=impl_res.get('raised'), where=impl_res.get('where'))
+    # the form of the integer arguments: window length, channel ids, query ids
+    sign = (lambda k: 'python' if k in ('int', 'list', 'tuple', None) else 'unsigned' if k.startswith('u') else 'signed')
+    d.update(window_type=sign(_nk(case)), channels_type=sign(case.get('chkind', 'list')),
+             query_channels_type=sign(case.get('chqkind', 'list')), query_ids_type=sign(case.get('qkind', 'array')))
     if case['op'] not in ('model', 'model_store'):
         chs = case.get('ch') or [c for row in case.get('chans', []) for c in row]
         d.update(unsigned=case.get('sdtype', 'int64').startswith('u'), neg1=(-1 in chs), chkind=case.get('chkind', 'list'),
@@ -366,6 +470,9 @@ def shrink(case):
             for i in range(len(case['spike_ids'])):
                 c = dict(case); c['spike_ids'] = case['spike_ids'][:i] + case['spike_ids'][i + 1:]
                 yield c
+        for key, plain in (('chkind', 'list'), ('qkind', 'array')):
+            if case.get(key, plain) != plain:
+                c = dict(case); c[key] = plain; yield c
         return
     ns = len(case['spikes'])
     if ns > 1:
@@ -381,6 +488,11 @@ def shrink(case):
             yield c
     if case.get('sdtype', 'int64') != 'int64':
         c = dict(case); c['sdtype'] = 'int64'; yield c
+    for key, plain in (('nkind', 'int'), ('chkind', 'list'), ('chqkind', 'list'), ('qkind', 'array')):
+        if case.get(key, plain) != plain:
+            c = dict(case); c[key] = plain; yield c
+    if case.get('cols') is not None and case['cols'] == list(range(case['nch'])):
+        c = dict(case); c.pop('cols'); yield c
     if case['backend'] not in ('array', 'ndarray'):
         c = dict(case); c['backend'] = 'array'; yield c
     if case['dtype'] != 'int16' and not case.get('bias'):
@@ -410,7 +522,45 @@ def _backend(rng, dur, dtype, k):
     return d
 
 
-def gen(tier, rng):
+NKINDS = ['int'] * 8 + INT_KINDS            # window length: half of the cases typed
+CHKINDS = ['list', 'array', 'list', 'array', 'tuple'] + INT_KINDS
+QKINDS = ['array', 'array', 'list', 'int32', 'uint32', 'uint64', 'int16', 'uint8']
+
+
+def _kind_for(kind, vals):
+    """the container / dtype a generated case really uses for `vals`: an unsigned dtype cannot hold -1"""
+    flat = [c for v in vals for c in (v if isinstance(v, (list, tuple)) else [v])]
+    if kind.startswith('u') and any(c < 0 for c in flat):
+        return kind[1:]
+    return kind
+
+
+def _interleave(streams):
+    """weighted round robin over (generator, weight) pairs, so that a run stopped by its time budget has seen every
+    stream in proportion"""
+    live = [[iter(g), w] for g, w in streams]
+    while live:
+        for it in list(live):
+            for _ in range(it[1]):
+                try:
+                    yield next(it[0])
+                except StopIteration:
+                    live.remove(it)
+                    break
+
+
+def _derive(rng, c, k):
+    """read the case through `reader[:, cols]`: the file gets 0..2 extra channels and `cols` selects / permutes the
+    channels the case speaks about (channel_map of a TemplateModel with n_channels_dat > n_channels)"""
+    if c['backend'] == 'ndarray' or k % 4 != 1:
+        return c
+    nsel = c['nch']
+    c['nch'] = nsel + rng.randrange(0, 3)
+    c['cols'] = rng.sample(range(c['nch']), nsel)
+    return c
+
+
+def _gen_extract(tier, rng):
     q = tier == 'quick'
     L = 7 if q else 12
     W = 6 if q else 9
@@ -426,16 +576,42 @@ def gen(tier, rng):
             for ci, ch in enumerate(chs):
                 k += 1
                 c = dict(p=PID, op='extract', dur=dur, nch=nch, n=n, spikes=list(range(dur)), ch=ch,
-                         chkind=['array', 'list'][k % 2], sdtype=sdts[k % 4], dtype=dts[k % 3])
+                         sdtype=sdts[k % 4], dtype=dts[k % 3], nkind=NKINDS[(k // 2) % len(NKINDS)])
                 c.update(_backend(rng, dur, c['dtype'], k))
                 if k % 3 == 0:
                     c['backend'] = 'ndarray'
                 if c['dtype'] != 'int16' and nch >= 2 and -1 in ch and k % 2:
                     c['nanlast'] = True
                     c['ch'] = [-1 if x == nch - 1 else x for x in ch]
-                yield c
+                c['chkind'] = _kind_for(CHKINDS[(k // 3) % len(CHKINDS)], c['ch'])
+                yield _derive(rng, c, k // 5) if not c.get('nanlast') else c
+    # 1b. longer recordings, spikes in any order (extraction does not need them sorted), on every backend
+    for _ in range(250 if q else 4000):
+        k += 1
+        dur = rng.randrange(1, 40)
+        nch = rng.randrange(1, 5)
+        n = rng.randrange(1, 10)
+        dtype = dts[k % 3]
+        spikes = [rng.pick([rng.randrange(dur), 0, dur - 1, min(dur - 1, n // 2), max(0, dur - 1 - n // 2)])
+                  for _ in range(rng.randrange(1, 7))]
+        ch = rng.sample(range(nch), rng.randrange(1, nch + 1)) + [-1] * rng.pick([0, 0, 1, 2])
+        rng.shuffle(ch)
+        c = dict(p=PID, op='extract', dur=dur, nch=nch, n=n, spikes=spikes, ch=ch, sdtype=sdts[k % 4], dtype=dtype,
+                 nkind=rng.pick(NKINDS))
+        c.update(_backend(rng, dur, dtype, k))
+        if k % 7 == 0:
+            c['backend'] = 'ndarray'
+        c['chkind'] = _kind_for(rng.pick(CHKINDS), ch)
+        yield _derive(rng, c, k)
+
+
+def _gen_routes(tier, rng):
+    q = tier == 'quick'
+    k = 0
+    sdts = ['int64', 'int32', 'uint32', 'uint64']
+    dts = ['int16', 'float32', 'float64']
     # 2. export + lookup: sorted spike vectors incl. ties and all boundaries
-    for _ in range(3000 if q else 30000):
+    for _ in range(2600 if q else 30000):
         k += 1
         dur = rng.randrange(1, 30)
         nch = rng.randrange(1, 5)
@@ -462,15 +638,15 @@ def gen(tier, rng):
             chans.append(row)
         c = dict(p=PID, op='export' if k % 2 else 'lookup', dur=dur, nch=nch, n=n, spikes=spikes, chans=chans,
                  nloc=nloc, sdtype=sdts[k % 4], dtype=dtype, factor=[1, 2, 1.0, 0.5, 2.5][k % 5],
-                 chkind=['array', 'list'][(k // 2) % 2], cache=bool((k // 3) % 2))
+                 cache=bool((k // 3) % 2))
         c.update(be)
         if dtype != 'int16' and nch >= 2 and k % 4 == 3:
             # non-finite samples on the last channel; channel lists name it only through -1
             c['nanlast'] = True
             c['chans'] = [[-1 if x == nch - 1 else x for x in row] for row in chans]
+        c['chkind'] = _kind_for(CHKINDS[(k // 2) % len(CHKINDS)], c['chans'])
         c['prev'] = ['none', 'export', 'none', 'bytes', 'export'][k % 5 if k % 7 else 1]
-        if k % 6 == 2:
-            c['nkind'] = 'np'
+        c['nkind'] = NKINDS[(k // 2) % len(NKINDS)] if k % 6 != 2 else 'np'
         if dtype == 'int16' and k % 4 == 0:
             c['bias'] = 20000        # products with an int factor exceed the int16 range
         if dtype == 'float32' and k % 4 == 1:
@@ -482,9 +658,18 @@ def gen(tier, rng):
             qn = rng.randrange(1, ns + 1)
             c['query'] = [rng.pick(c['ids']) for _ in range(qn)]
             c['chq'] = rng.sample(range(nch + 2), rng.randrange(1, nch + 2))
+            c['chqkind'] = rng.pick(CHKINDS)
+            c['qkind'] = rng.pick(QKINDS)
+        if not c.get('nanlast'):
+            c = _derive(rng, c, k // 3)
         yield c
-    # 3. TemplateModel.get_waveforms (raw-data route) on generated datasets
-    for _ in range(150 if q else 1500):
+
+
+def _gen_models(tier, rng):
+    q = tier == 'quick'
+    # 3. TemplateModel.get_waveforms (raw-data route, subset-store route) on generated datasets; the channel map
+    # selects and permutes a subset of the file's channels, so `model.traces` is a column-selected derived reader
+    for _ in range(120 if q else 1500):
         spec = D.random_spec(rng, raw=True, feats=False, tfeats=False)
         ncd = spec['n_channels_dat']
         off = 0
@@ -496,13 +681,21 @@ def gen(tier, rng):
         spec['spike_samples'] = sorted(rng.randrange(0, off) for _ in spec['spike_samples'])
         ns = len(spec['spike_samples'])
         nc = spec['n_channels']
+        ch = rng.sample(range(nc), rng.randrange(1, nc + 1)) + ([-1] if rng.random() < .3 else [])
         yield dict(p=PID, op='model', spec=spec, spike_ids=[rng.randrange(ns) for _ in range(rng.randrange(1, 5))],
-                   ch=rng.sample(range(nc), rng.randrange(1, nc + 1)) + ([-1] if rng.random() < .3 else []),
-                   chkind=rng.pick(['array', 'list']))
+                   ch=ch, chkind=_kind_for(rng.pick(CHKINDS), ch), qkind=rng.pick(QKINDS))
         if ns >= 4:
+            # queries in any order, a spike may be asked for twice
+            ids = rng.sample(range(ns), rng.randrange(1, 4))
+            if rng.random() < .3:
+                ids.append(rng.pick(ids))
             yield dict(p=PID, op='model_store', spec=spec, nst=rng.randrange(1, 3), nc=rng.pick([nc, nc, 0, 1, 14]),
                        rs=rng.randrange(1000), factor=rng.pick([1., 1., 2., 0.5, 2]),
-                       spike_ids=sorted(rng.sample(range(ns), rng.randrange(1, 4))),
-                       ch=rng.sample(range(nc), rng.randrange(1, nc + 1)),
+                       spike_ids=ids, ch=rng.sample(range(nc), rng.randrange(1, nc + 1)),
+                       chkind=rng.pick(CHKINDS), qkind=rng.pick(QKINDS), pick=rng.pick(['given', 'stored']),
                        prior=rng.pick([None, None, dict(nst=rng.randrange(1, 4), nc=rng.pick([nc, 0, 2]), rs=rng.randrange(1000),
                                                         factor=rng.pick([1., 3.]), reopen=rng.random() < .7)]))
+
+
+def gen(tier, rng):
+    return _interleave([(_gen_routes(tier, rng), 16), (_gen_extract(tier, rng), 2), (_gen_models(tier, rng), 2)])
